@@ -347,10 +347,9 @@ def streamFill (fixed : Bool) (bs : UInt32) (s : StreamSt) (w : UInt32) (l : Blk
     else
       -- :437  precache_fragment_block; frag_blk_size checks; memcpy(buffer, frag_block + frag_off, buf_used)
       match fragPre with
-      -- :472  `if (ret) return ret;` — not the `fail:` path: `buf_off = 0` and `buf_used` are already set (:442), the
-      -- buffer is not refilled, `filesz` is unchanged: the *next* call hands out `buf_used` stale bytes (inside the
-      -- `block_size` buffer), the call after that fails the same way again
-      | .error e => ({ s with bufOff := 0, bufUsed := bufUsed }, .err e, [])
+      -- since /repo 8447a61 a failed `precache_fragment_block` goes through `fail:` like every other error (before, it
+      -- returned with `buf_used` set and the buffer not refilled, so the next call handed out stale bytes: D33, C10)
+      | .error e => fail e []
       | .ok fragBlkSize =>
         if fragBlkSize < fragOff.toUInt64 || fragBlkSize - fragOff.toUInt64 < bufUsed then fail .corrupted []
         else done s [Access.mk .fragBlock fragOff.toNat bufUsed.toNat fragBlkSize.toNat,
